@@ -23,8 +23,8 @@ request:  `<mode> <arg> <tok> <tok> ...`
 * mode `window`, arg = `emit_zero_counters`: tokens are atomic events as in `trace`; a leading `+` marks a step of the
   readout's own walk, the others belong to other threads; reply: the entry of `readoutInterleaved` (unit map read
   after the last event).
-* mode `reportertask`, arg `orig` | `dedup`: tokens `u` (update), `c` (cancel), `t0` / `t1` (task step, timer not
-  fired / fired); reply `<marks>- <pc>` with marks `u` / `P` (published readout) in order.
+* mode `reportertask`, arg `orig` | `dedup` | `dropcancels`: tokens `u` (update), `c` (cancel), `t0` / `t1` (task step,
+  timer not fired / fired), `k` / `x` (a `MetricReporter` handle is cloned / dropped); reply `<marks>- <pc>` with marks `u` / `P` (published readout) in order.
 * mode `idx`, arg `-`: tokens are decimal `u32` values; reply per value `<index>:<lower>:<upper>:<bucket value>`.
 * mode `trace`, arg = `emit_zero_counters`: tokens are atomic events (`inc:<key>:<n>`, `swapC:<key>`, `gset:<key>:<hex>`,
   `gload:<key>`, `hrec:<key>:<u32>`, `hswap:<key>:<i>`, `rc/rg/rh:<key>`, `d:<name>:<unit>`); reply: the observations
@@ -149,13 +149,17 @@ def handle (line : String) : String :=
   | "reportertask" :: variant :: toks =>
     let parseS (t : String) : Option Reporter.RStep :=
       if t == "u" then some .update else if t == "c" then some .cancel
-      else if t == "t0" then some (.task false) else if t == "t1" then some (.task true) else none
+      else if t == "t0" then some (.task false) else if t == "t1" then some (.task true)
+      else if t == "k" then some .cloneHandle else if t == "x" then some .dropHandle else none
     let markStr (m : Reporter.Mark) : String := match m with | .upd => "u" | .pub => "P"
     let pcStr (p : Reporter.Pc) : String := match p with | .head => "head" | .sel => "sel" | .fin => "fin" | .done => "done"
     match toks.mapM parseS with
     | some tr =>
       if variant == "orig" then
         let r := Reporter.runR Reporter.stepOrig Reporter.initOrig tr
+        s!"{String.join (r.2.map markStr)}- {pcStr r.1.pc}"
+      else if variant == "dropcancels" then
+        let r := Reporter.runR Reporter.stepDropCancels Reporter.initOrig tr
         s!"{String.join (r.2.map markStr)}- {pcStr r.1.pc}"
       else if variant == "dedup" then
         let r := Reporter.runR Reporter.stepDedup Reporter.initDedup tr
